@@ -9,6 +9,7 @@ magic bytes and decoding with the standard library -- independently of typhon.
 """
 import bz2
 import csv
+import hashlib
 import gzip
 import io
 import json
@@ -18,6 +19,7 @@ import pickle
 import shutil
 import sys
 import tempfile
+import time
 import traceback
 import zipfile
 from datetime import datetime, timedelta
@@ -38,7 +40,47 @@ def from_us(n):
 
 # ----------------------------------------------------------------------------- test data per handler kind
 
-HCODE = {"pkl": 1, "json": 2, "csv": 3, "nc": 4}
+HCODE = {"pkl": 1, "json": 2, "csv": 3, "nc": 4, "ncg": 4}
+NC = ("nc", "ncg")          # both go through typhon's NetCDF4 handler (chosen by FileSet from the suffix)
+GROUPS = (("ancillary", "channel1"), ("quality", "channel2"))
+
+
+def mk_grouped(v):
+    """kind "ncg": data sets that keep variables in PSEUDO GROUPS ("group/variable", one level), as NetCDF4.write documents.
+    The layout is a function of the payload, so that val() can rebuild the object that was written from what was read:
+      v % 4      0 root variables first, then two groups      1 a group FIRST, then a root variable, a second group, a root
+                 2 variables in groups ONLY (v itself in the first group)      3 flat (root variables only)
+      (v // 4) % 2   which pair of group names (an overwrite with the other pair must leave nothing of the first)
+    Grouped variables use dimensions of their own group only: a grouped variable on a ROOT dimension cannot be read back on
+    the unchanged tree (KeyError in NetCDF4._load_group; reported, not generated)."""
+    import xarray as xr
+    shape, (ga, gb) = v % 4, GROUPS[(v // 4) % 2]
+    root = {"v": ("n", np.array([v, v + 1, 2 * v], dtype="int64")),
+            "lat": ("n", np.array([v + 0.5, np.nan, -1.25], dtype="float64"))}
+    a = {f"{ga}/q": (f"{ga}/pixel", (np.arange(6) + v % 100).astype("int16")),
+         f"{ga}/w": ((f"{ga}/pixel", f"{ga}/k"), (np.arange(12).reshape(6, 2) * 0.5 + v % 1000).astype("float32"))}
+    b = {f"{gb}/bt": (f"{gb}/pixel", np.array([200.0 + v % 50, np.nan, 210.5, 1.0, 2.0], dtype="float64")),
+         f"{gb}/u8": (f"{gb}/pixel", np.array([v % 200, 0, 255, 1, 2], dtype="uint8"))}
+    if shape == 0:
+        d = {**root, **a, **b}
+    elif shape == 1:
+        d = dict(a)
+        d["v"] = root["v"]
+        d.update(b)
+        d["lat"] = root["lat"]
+    elif shape == 2:
+        d = {f"{ga}/v": (f"{ga}/n", root["v"][1]), **a, **b}
+    else:
+        d = {**root, "f32": ("n", np.array([v * 0.5, 1.5, np.nan], dtype="float32"))}
+    return xr.Dataset(d)
+
+
+def payload_of(kind, data):
+    """the number an xarray object carries: variable v of the root or, for data in groups only, of a group"""
+    if "v" in data.variables or kind != "ncg":
+        return int(np.asarray(data["v"]).ravel()[0])
+    name = sorted(n for n in data.variables if str(n).endswith("/v"))[0]
+    return int(np.asarray(data[name]).ravel()[0])
 
 
 def mk(kind, v):
@@ -50,6 +92,8 @@ def mk(kind, v):
         return xr.Dataset({"v": ("index", np.array([v, v + 1, 2 * v], dtype="int64")),
                            "w": ("index", np.array([v + 0.5, np.nan, -1.25]))},
                           coords={"index": np.arange(3)})
+    if kind == "ncg":
+        return mk_grouped(v)
     if kind == "nc":
         t0 = np.datetime64("2018-01-01T00:00:00", "ns")
         ds = xr.Dataset({
@@ -73,12 +117,18 @@ def val(kind, data):
     object built from that number (the handler's round trip kept everything)."""
     if kind in ("pkl", "json"):
         return int(data["v"]), set(data) == {"v"}
-    v = int(np.asarray(data["v"]).ravel()[0])
+    v = payload_of(kind, data)
     ref = mk(kind, v)
     note = ""
     try:
         ok = True
-        for name in ref.variables:
+        if kind in NC and set(map(str, data.variables)) != set(map(str, ref.variables)):
+            # what is read back is what was written LAST: no variable is lost, nothing of an earlier content survives
+            ok = False
+            note = (f"variables written {sorted(map(str, ref.variables))} but read {sorted(map(str, data.variables))}: lost "
+                    f"{sorted(set(map(str, ref.variables)) - set(map(str, data.variables)))}, not written with this data set "
+                    f"(left from an earlier content of the file?) {sorted(set(map(str, data.variables)) - set(map(str, ref.variables)))}")
+        for name in (ref.variables if ok else ()):
             if name not in data.variables:
                 ok, note = False, f"variable {name} missing"
                 break
@@ -93,7 +143,7 @@ def val(kind, data):
             if not same:
                 ok, note = False, f"{name}: values {b.tolist()} != {a.tolist()}"
                 break
-            if kind == "nc" and name != "s" and a.dtype != b.dtype:
+            if kind in NC and name != "s" and a.dtype != b.dtype:
                 ok, note = False, f"{name}: dtype {b.dtype} != {a.dtype}"
                 break
             if tuple(ref[name].dims) != tuple(data[name].dims):
@@ -135,6 +185,20 @@ def json_reader(fi, offset=0):
 def json_writer(data, fi, offset=0):
     with open(fi.path, "w") as f:
         json.dump({"v": data["v"] + offset}, f)
+
+
+class SlowReader:
+    """A user reader that takes a moment: it waits, opens the file it is handed, waits again while it holds the file open,
+    then reads it -- as a reader of a large file does.  With worker threads / processes the reads of several files overlap."""
+    def __init__(self, kind, ms):
+        self.kind, self.ms = kind, ms
+
+    def __call__(self, fi, offset=0):
+        time.sleep(self.ms / 2000.0)
+        with open(fi.path, "rb" if self.kind == "pkl" else "r") as f:
+            time.sleep(self.ms / 2000.0)
+            d = pickle.load(f) if self.kind == "pkl" else json.load(f)
+        return {"v": d["v"] - offset}
 
 
 class ConversionError(ValueError):
@@ -195,8 +259,10 @@ WRITERS = {1: "write_kw", 2: "write_off", 3: "write_off_kw"}
 READER_SINGLE_EXTRA = True
 
 
-def user_handler(kind, rflav=0, wflav=0, picky=None):
+def user_handler(kind, rflav=0, wflav=0, picky=None, slow=None):
     from typhon.files import FileHandler
+    if slow:
+        return FileHandler(reader=SlowReader(kind, int(slow)), writer=pkl_writer if kind == "pkl" else json_writer)
     if not READER_SINGLE_EXTRA and rflav in (1, 2):
         rflav = 3
     if picky is not None and not wflav:
@@ -269,7 +335,7 @@ def build_fileset(root, cfg, picky=None):
     kw = {}
     if kind in ("pkl", "json"):
         # a handler from two plain functions (flavour 0) or from the bound methods of a user object
-        kw["handler"] = user_handler(kind, cfg.get("rflav", 0), cfg.get("wflav", 0), picky)
+        kw["handler"] = user_handler(kind, cfg.get("rflav", 0), cfg.get("wflav", 0), picky, cfg.get("slow"))
     # csv / nc: the handler is chosen by FileSet from the suffix (default_handler)
     if kind in ("pkl", "json"):
         if cfg["rargs"]:
@@ -283,10 +349,16 @@ def build_fileset(root, cfg, picky=None):
         kw["post_reader"] = (PostLabel(kind, cfg["post"], root) if cfg.get("plabel") else PostAdd(kind, cfg["post"]))
     if cfg["cov"] is not None:
         kw["time_coverage"] = timedelta(seconds=cfg["cov"])
-    if cfg.get("worker") == "thread" or kind == "nc":
+    if cfg.get("temp_dir"):
+        # the directory for the temporary (de)compressed copies: inside the tree of the case, so that it is listed
+        kw["temp_dir"] = os.path.join(root, cfg["temp_dir"])
+        os.makedirs(kw["temp_dir"], exist_ok=True)
+    if cfg.get("worker") == "thread" or kind in NC:
         kw["worker_type"] = "thread"
-    if kind == "nc":
+    if kind in NC:
         kw["max_threads"] = 1        # the netCDF4 library is not thread safe (HDF errors, segmentation faults)
+    elif cfg.get("worker") == "default":
+        pass                         # worker type and pool sizes as FileSet chooses them (collect: 3 threads, map: 4 processes)
     elif cfg.get("max_workers"):
         kw["max_threads"] = kw["max_processes"] = int(cfg["max_workers"])
     fs = FileSet(os.path.join(root, cfg["path"]), name=cfg["name"], compress=cfg["compress"],
@@ -329,7 +401,13 @@ def _sniff(raw):
             import netCDF4
             with netCDF4.Dataset("inmem.nc", memory=raw) as ds:
                 ds.set_auto_maskandscale(False)
-                return _pre(c) + [4, int(ds.variables["v"][0])]
+                if "v" in ds.variables:
+                    return _pre(c) + [4, int(ds.variables["v"][0])]
+                # data in groups only: the payload is in a group
+                for g in sorted(ds.groups):
+                    if "v" in ds.groups[g].variables:
+                        return _pre(c) + [4, int(ds.groups[g].variables["v"][0])]
+                return [-2]
         text = raw.decode()
         delim = ";" if ";" in text.splitlines()[0] else ","
         rows = list(csv.DictReader(io.StringIO(text), delimiter=delim))
@@ -350,6 +428,20 @@ def listing(root):
                 out["R/" + os.path.relpath(p, root).replace(os.sep, "/")] = [-3]
                 continue
             out["R/" + os.path.relpath(p, root).replace(os.sep, "/")] = sniff(raw)
+    return out
+
+
+def digests(root):
+    """path -> SHA-1 of the bytes of the file: operations that only read must leave every file byte for byte as it was"""
+    out = {}
+    for dp, _, fns in os.walk(root):
+        for fn in fns:
+            p = os.path.join(dp, fn)
+            try:
+                with open(p, "rb") as f:
+                    out["R/" + os.path.relpath(p, root).replace(os.sep, "/")] = hashlib.sha1(f.read()).hexdigest()
+            except OSError:
+                out["R/" + os.path.relpath(p, root).replace(os.sep, "/")] = "unreadable"
     return out
 
 
@@ -697,6 +789,8 @@ def run_case(case):
             except Exception as ex:  # noqa
                 out["obj"], out["obj_init"] = f"{type(ex).__name__}: {ex}", fs_init
             records.append({"op": r, "out": out, "after": listing(root), "links": links(root)})
+            if case.get("digest"):
+                records[-1]["sha"] = digests(root)
         return {"id": case["id"], "records": records}
     finally:
         shutil.rmtree(root, ignore_errors=True)
